@@ -509,3 +509,63 @@ class AddWildcardsToKeyword(Contract):
 
     def frame_ok(self, I, inp, obj, name):
         return False
+
+
+@register
+class AddConditionBounded(Bounded):
+    """add_condition through the public API: explicit names that occur inside other words of the conditions, several conditions per rule,
+    two add_condition items (also with the SAME item identifier, as after joining two pipelines) - the conditions must mean
+    NAME2 and (NAME1 and (old)), read by the reference reader of the condition grammar"""
+    id = "C12.bounded.add_condition"
+    props = ("C12", "C02", "C13")
+
+    def run(self, tier, seed):
+        import itertools, copy
+        from sigma.rule import SigmaRule
+        from sigma.processing.pipeline import ProcessingPipeline
+        from contracts.c02_bounded import Ref, tokenize, ev_ref
+        ev = 0
+        fails, seen = [], {}
+        dets = ["sel_index_main", "flt", "a", "index2", "x_index"]
+        conds = ["sel_index_main and not flt", "1 of sel_index_* or not flt", "a or index2", "(a) or (x_index)", "not 1 of *_index*", "a"]
+        names = ["index", "_index", "idx", "a", "_cond"]
+        for name, cset, idents in itertools.product(names, (conds[:1], conds[1:3], conds[3:], conds), (("i1", "i2"), ("same", "same"), (None, None))):
+            if name in dets:
+                continue
+            ev += 1
+            doc = {"title": "t", "logsource": {"category": "c"}, "detection": {**{d: {d: 1} for d in dets}, "condition": list(cset)}}
+            items = [{"type": "add_condition", "conditions": {"k1": 1}, "name": name}, {"type": "add_condition", "conditions": {"k2": 2}, "name": name + "_second"}]
+            for it, ident in zip(items, idents):
+                if ident:
+                    it["id"] = ident
+            try:
+                rule = SigmaRule.from_dict(copy.deepcopy(doc))
+                (ProcessingPipeline.from_dict({"transformations": items[:1]}) + ProcessingPipeline.from_dict({"transformations": items[1:]})).apply(rule)
+                got = [c.condition for c in rule.detection.parsed_condition]
+                ok_dets = name in rule.detection.detections and name + "_second" in rule.detection.detections
+            except Exception as e:
+                got, ok_dets = f"{type(e).__name__}: {e}", False
+            bad = None
+            if not ok_dets or not isinstance(got, list) or len(got) != len(cset):
+                bad = f"detections added: {ok_dets}, conditions {got}"
+            else:
+                allnames = dets + [name, name + "_second"]
+                for g, old in zip(got, cset):
+                    want = f"{name}_second and ({name} and ({old}))"
+                    try:
+                        tg, tw = Ref(tokenize(g), allnames).parse_or(), Ref(tokenize(want), allnames).parse_or()
+                    except Exception:
+                        bad = f"condition {g!r} is not well-formed"
+                        break
+                    for bits in itertools.product((False, True), repeat=len(allnames)):
+                        env = dict(zip(allnames, bits))
+                        if ev_ref(tg, env) != ev_ref(tw, env):
+                            bad = f"condition {g!r} does not mean {want!r}"
+                            break
+                    if bad:
+                        break
+            if bad:
+                seen["add_condition"] = seen.get("add_condition", 0) + 1
+                if seen["add_condition"] <= 2:
+                    fails.append({"text": f"two add_condition items named {name!r} / {name + '_second'!r} (item identifiers {idents}) on a rule with the conditions {list(cset)}: {bad}", "input": [name, list(cset), list(idents)]})
+        return {"evaluations": ev, "distinct_nontrivial": ev, "failures": fails, "failure_counts": seen, "bound": f"{len(names)} names x 4 condition sets x 3 identifier settings", "rule": "every combination is non-trivial", "samples": [], "exhaustive": True}
